@@ -5,6 +5,7 @@ Geometry over any field of characteristic zero; index bookkeeping over Nat with 
 midpoint numbering (one new vertex per undirected edge, as `unique_rows(sorted edges)` provides).
 -/
 import TrimeshVerif.Proofs.Remesh
+import TrimeshVerif.Proofs.GeomRat
 namespace TV.C18
 open TV.Mat3 TV.Moments TV.Affine TV.Remesh
 
@@ -57,5 +58,25 @@ theorem C18_child_edge_quarter (a b c : V3 K) :
 theorem C18_reverse_face (a b c : V3 K) :
     areaVec (a, c, b) = smul (-1) (areaVec (a, b, c)) ∧ vol a c b = - vol a b c := by
   exact reverse_face a b c
+
+
+/-! ### the executable rational model run by the driver (Model/GeomRat.lean) -/
+section rat
+open TV.GeomRat
+
+/-- what the driver evaluates is the generic definition at ℚ (by `rfl`) -/
+theorem C18_rat_model_is_generic (a b c : TV.GeomRat.V) (mid : Nat → Nat → Nat) (f : TV.GeomRat.Face) :
+    childrenR a b c = TV.Remesh.children a b c ∧ childFacesN mid f = TV.Remesh.childFaces mid f :=
+  ⟨childrenR_eq a b c, childFacesN_eq mid f⟩
+
+theorem C18_rat_children (a b c : TV.GeomRat.V) :
+    (∀ t ∈ childrenR a b c, smulV 4 (areaVecR t) = areaVecR (a, b, c)) ∧
+    meshVolR (childrenR a b c) = volR a b c :=
+  rat_children a b c
+
+/-- subdividing every face of any triangle list keeps the signed volume exactly -/
+theorem C18_rat_subdivide_volume (ts : List TV.GeomRat.Tri) : meshVolR (subdivideR ts) = meshVolR ts :=
+  rat_subdivide_volume ts
+end rat
 
 end TV.C18
